@@ -153,13 +153,18 @@ Qed.
 Lemma resolve_wk wk srv name h :
   parse_and_validate name = Some (h, None) -> parse_ip (strip_brackets h) = None ->
   resolve wk srv name = match wk name with
-                        | Some d => resolve_delegate srv d
+                        | Some d => match parse_and_validate d with
+                                    | Some _ => resolve_delegate srv d
+                                    | None => resolve_delegate srv name
+                                    end
                         | None => resolve_delegate srv name
                         end.
 Proof.
   intros Ev Ei. unfold resolve, resolve_step. rewrite Ev, Ei.
-  destruct (wk name); [reflexivity|].
-  unfold resolve_delegate, resolve_step. rewrite Ev, Ei. reflexivity.
+  assert (Hn : handle_no_well_known srv name = resolve_delegate srv name).
+  { unfold resolve_delegate, resolve_step. rewrite Ev, Ei. reflexivity. }
+  destruct (wk name) as [d|]; [|exact Hn].
+  destruct (parse_and_validate d); [reflexivity|exact Hn].
 Qed.
 
 Theorem resolve_sound wk srv name :
@@ -169,7 +174,9 @@ Proof.
   - assert (Hw : wants_well_known name).
     { exists h. split; [exact Ev|]. intros [v Hv]. unfold bare in Hv. congruence. }
     rewrite (resolve_wk _ _ _ _ Ev Ei). destruct (wk name) as [d|] eqn:Ew.
-    + eapply R_delegated; eauto. apply direct_complete. exact Hs.
+    + destruct (parse_and_validate d) eqn:Ed.
+      * eapply R_delegated; eauto; [congruence|]. apply direct_complete. exact Hs.
+      * apply R_not_delegated; auto; [right; exists d; auto|]. apply direct_complete. exact Hs.
     + apply R_not_delegated; auto. apply direct_complete. exact Hs.
   - rewrite (resolve_no_wk _ _ _ Hn). apply R_literal_or_port; auto.
     apply direct_complete. exact Hs.
@@ -178,17 +185,20 @@ Qed.
 Theorem resolve_unique wk srv name o :
   srv_sane srv -> resolves wk srv name o -> o = resolve wk srv name.
 Proof.
-  intros Hs H. inversion H as [d o' Hw Hwk Hd | o' Hw Hwk Hd | o' Hw Hd]; subst; clear H.
+  intros Hs H. inversion H as [d o' Hw Hwk Hv Hd | o' Hw Hwk Hd | o' Hw Hd]; subst; clear H.
   - destruct Hw as (h & Ev & Hn).
     assert (Ei : parse_ip (strip_brackets h) = None).
     { destruct (parse_ip (strip_brackets h)) eqn:E; [|reflexivity].
       exfalso. apply Hn. eexists. exact E. }
-    rewrite (resolve_wk _ _ _ _ Ev Ei), Hwk. apply direct_functional; assumption.
+    rewrite (resolve_wk _ _ _ _ Ev Ei), Hwk.
+    destruct (parse_and_validate d); [|contradiction]. apply direct_functional; assumption.
   - destruct Hw as (h & Ev & Hn).
     assert (Ei : parse_ip (strip_brackets h) = None).
     { destruct (parse_ip (strip_brackets h)) eqn:E; [|reflexivity].
       exfalso. apply Hn. eexists. exact E. }
-    rewrite (resolve_wk _ _ _ _ Ev Ei), Hwk. apply direct_functional; assumption.
+    rewrite (resolve_wk _ _ _ _ Ev Ei).
+    destruct Hwk as [Hwk|(d & Hwk & Hd0)]; rewrite Hwk; [|rewrite Hd0];
+      apply direct_functional; assumption.
   - rewrite (resolve_no_wk _ _ _ Hw). apply direct_functional; assumption.
 Qed.
 
@@ -213,8 +223,11 @@ Theorem spec_fn_eq wk srv name :
   srv_sane srv -> spec_fn wk srv name = resolve wk srv name.
 Proof.
   intro Hs. unfold spec_fn. destruct (wants_wk_dec name) as [(h & Ev & Ei)|Hn].
-  - rewrite (resolve_wk _ _ _ _ Ev Ei). unfold shape_of, bare. rewrite Ev, Ei.
-    destruct (wk name); apply direct_fn_eq; exact Hs.
+  - rewrite (resolve_wk _ _ _ _ Ev Ei). unfold shape_of at 1. unfold bare. rewrite Ev, Ei.
+    destruct (wk name) as [d|]; [|apply direct_fn_eq; exact Hs].
+    unfold shape_of. destruct (parse_and_validate d) as [[hd pd]|]; [|apply direct_fn_eq; exact Hs].
+    destruct (parse_ip (bare hd)); [apply direct_fn_eq; exact Hs|].
+    destruct pd; apply direct_fn_eq; exact Hs.
   - rewrite (resolve_no_wk _ _ _ Hn).
     destruct (shape_of name) eqn:Es; try (apply direct_fn_eq; exact Hs).
     exfalso. apply Hn. unfold shape_of, bare in Es.
@@ -248,7 +261,8 @@ Proof.
   destruct (parse_and_validate name) as [[h p]|]; [|left; reflexivity].
   destruct (parse_ip (strip_brackets h)); [left; reflexivity|].
   destruct p; [left; reflexivity|]. right. simpl.
-  destruct (wk name); [rewrite Hq|rewrite srv_probes_no_pw]; reflexivity.
+  destruct (wk name) as [d|]; [|rewrite srv_probes_no_pw; reflexivity].
+  destruct (parse_and_validate d); [rewrite Hq|rewrite srv_probes_no_pw]; reflexivity.
 Qed.
 
 (* _matrix-fed is asked first; _matrix only after a not-found answer *)
